@@ -460,11 +460,19 @@ def run(ctx):
 
     # binding demonstration: corrupt one logged field of an accepted trace; TLC must reject it with the right clause
     corrupt = {}
-    base = next((t for t in traces if t["id"] not in pyv and t["id"].endswith("/abs") and len(t["steps"]) == 2
-                 and len(t["steps"][-1]["dims"]) >= 2 and t["steps"][-1]["dims"][0]["k"] in X.LEAD_KINDS
-                 and t["steps"][-1]["dims"][-1]["k"] in X.GRID_KINDS), None)
-    if base is None:
-        raise Machinery("no accepted trace available for the binding demonstration")
+    # the base trace is synthesised from the specification's own expectation (independent of the implementation)
+    s0 = next(k for k in starts if start_id(table[k][0]) == "time+n_face")
+    a0, G0, mv0 = table[s0]
+    base_cnt = X.counts(X.env()["base"])
+    steps0, cur = [], s0
+    for _ in range(2):
+        free_, ea, eG = table[cur][2][("abs", "-")]
+        steps0.append({"op": "abs", "d": "-", "out": "value", "val": "eq", "cls": "Ux", "grid": ea["grid"], "name": ea["name"],
+                       "dims": [{"k": q["k"], "n": q["n"], "size": base_cnt[q["k"]] if q["k"] in X.GRID_KINDS else q["n"]} for q in ea["dims"]],
+                       "g": {"cnt": base_cnt, "eq": [], "share": []}})
+        cur = skey(ea, eG)
+    base = {"id": "corrupt:none", "init": {"arr": a0, "grids": G0}, "steps": steps0, "pre_kinds": ["base", "base"]}
+    traces.append(base)
 
     def corrupted(tag, clause, edit):
         t = json.loads(json.dumps({k: base[k] for k in ("id", "init", "steps")}))
@@ -517,6 +525,9 @@ def run(ctx):
             expect_states += 1 + L
     if rt.distinct != expect_states:
         raise Machinery("trace validation visited %d states, %d expected from the verdicts" % (rt.distinct, expect_states))
+    if "corrupt:none" in rejected:
+        raise Machinery("binding demonstration: the conforming synthetic trace was rejected: %s" % (rejected["corrupt:none"],))
+    traces = [t for t in traces if t["id"] != "corrupt:none"]
     for tid, clause in corrupt.items():
         if tid not in rejected or rejected[tid][0] != 2 or clause not in rejected[tid][1]:
             raise Machinery("binding demonstration: corrupted trace %s (expected clause %s) was judged %s" % (tid, clause, rejected.get(tid)))
